@@ -153,8 +153,15 @@ pub fn c16(tier: &str, seed: u64) {
       _ => g.range(1, 12) as u32,
     };
     let big = !quick(tier) && case_i % 40 == 9;
-    let m = { let n = if big { 100_000 } else { *g.pick(&[0usize, 0, 1, 4, 165, 166, 167, 332, 1000]) }; g.blob(n) };
-    let r = { let n = if big { 70_000 } else { *g.pick(&[0usize, 1, 4, 32, 166, 500]) }; g.blob(n) };
+    // JOINT extremes: a large threshold together with large message / coins (each alone is covered
+    // by the other cases): total share material of tens of megabytes
+    let joint = case_i == 4 || case_i == 11 || (!quick(tier) && case_i % 100 == 18);
+    let t = if joint { *g.pick(&[128u32, 127, 84, 42]) } else { t };
+    let m = { let n = if joint { *g.pick(&[65_505usize, 65_537, 100_000, 40_000]) } else if big { 100_000 } else { *g.pick(&[0usize, 0, 1, 4, 165, 166, 167, 332, 1000]) }; g.blob(n) };
+    let r = { let n = if joint { *g.pick(&[32usize, 40_000, 100_000]) } else if big { 70_000 } else { *g.pick(&[0usize, 1, 4, 32, 166, 500]) }; g.blob(n) };
+    if joint {
+      stat("oracle.C16.joint_extremes");
+    }
     let c = Commune::new(t, m.clone(), r.clone(), None);
     let cnt = (t as usize + 2).max(2);
     // history: the same (t, M, R) was shared under a custom transcript immediately before
@@ -275,8 +282,11 @@ pub fn c05(tier: &str, seed: u64) {
   let n = if quick(tier) { 25 } else { 300 };
   for case_i in 0..n {
     let t = g.range(1, if quick(tier) { 6 } else { 12 }) as u32;
-    let m = { let n = *g.pick(&[1usize, 4, 32, 40]); g.blob(n) };
-    let r = { let n = *g.pick(&[1usize, 8, 32]); g.blob(n) };
+    // message and coins of every size class: empty, short, exactly / just beyond the 32 bytes STAR
+    // uses, and beyond one STROBE block (166 bytes) - the MAC must cover all of both
+    let m = { let n = *g.pick(&[1usize, 4, 32, 40, 0, 33, 170]); g.blob(n) };
+    let r = { let n = *g.pick(&[1usize, 8, 32, 33, 48, 170, 0]); g.blob(n) };
+    stat(&format!("oracle.C05.coins_len.{}", r.len()));
     let c = Commune::new(t, m.clone(), r.clone(), None);
     let cnt = t as usize + g.below(3) as usize;
     let shares: Vec<Vec<u8>> = (0..cnt).map(|_| c.clone().share().unwrap().to_bytes()).collect();
@@ -284,8 +294,14 @@ pub fn c05(tier: &str, seed: u64) {
     // every field x (every byte position | a sample) x share position
     for pos in 0..cnt {
       for (fname, range) in &fields {
+        if range.is_empty() {
+          continue;
+        }
         let offs: Vec<usize> = if quick(tier) && range.len() > 6 {
           let mut v = vec![range.start, range.end - 1];
+          if range.len() > 40 {
+            v.extend([range.start + 31, range.start + 32, range.start + 33]);
+          }
           for _ in 0..3 {
             v.push(range.start + g.below(range.len() as u64) as usize);
           }
@@ -601,9 +617,9 @@ pub fn c02(tier: &str, seed: u64) {
     for t in [2u32, 3, 5] {
       use crate::o_sharks::RecRng;
       let secret = crate::s_fp::le24(g.next() as u128 | 1, 0).to_vec();
-      let mut drng = RecRng { inner: Sm(g.next()), words: vec![], zero_next: 0 };
+      let mut drng = RecRng { inner: Sm(g.next()), words: vec![], zero_next: 0, zero_at: vec![] };
       let mut ev = star_sharks::Sharks(t).dealer_rng(&secret, &mut drng).expect("dealer");
-      let mut grng = RecRng { inner: Sm(g.next()), words: vec![], zero_next: 3 * run };
+      let mut grng = RecRng { inner: Sm(g.next()), words: vec![], zero_next: 3 * run, zero_at: vec![] };
       let sh = ev.gen(&mut grng);
       let b = crate::s_sharks::share_bytes(&sh);
       if b[..24] == [0u8; 24] || b[24..48] == secret[..] {
